@@ -20,7 +20,19 @@ func (vc *VC) idx64(v *Val) string {
 	if vc.intMode {
 		panic("index arithmetic in int mode must go through idx64Int")
 	}
-	return bvConv(v.C[0], v.W, v.Signed, 64)
+	t := bvConv(v.C[0], v.W, v.Signed, 64)
+	if _, _, lit := asLit(t); !lit {
+		found := false
+		for _, x := range vc.indexTerms {
+			if x == t {
+				found = true
+			}
+		}
+		if !found {
+			vc.indexTerms = append(vc.indexTerms, t)
+		}
+	}
+	return t
 }
 
 func mulOff(i string, stride int64) string {
@@ -108,7 +120,7 @@ func (vc *VC) exec(rs *runState, ins ssa.Instruction) {
 		et := ins.Type().Underlying().(*types.Slice).Elem()
 		l64, c64 := vc.idx64(ln), vc.idx64(cp)
 		st := vc.stride(et)
-		lim := int64(1) << 40
+		lim := int64(1) << 46
 		if st > 0 {
 			lim = lim / st
 		}
